@@ -64,6 +64,12 @@ theorem head_end_iff {s : State} (hc : Chain s s.head s.abs) : (s.head != END) =
   | nil => simp [h] at this; simp [this]
   | cons a r => simp [h] at this; simp [this]
 
+theorem head_end_iff' {s : State} (hc : Chain s s.head s.abs) : (s.head == END) = s.abs.isEmpty := by
+  have := chain_nil_iff hc
+  cases h : s.abs with
+  | nil => simp [h] at this; simp [this]
+  | cons a r => simp [h] at this; simp [this]
+
 theorem lnext_frame {s s' : State} {a b : Nat} (hn : s'.next a = s.next a)
     (hp : ∀ t, PendC s t a b → ∃ t', PendC s' t' a b) (h : lnext s a b) : lnext s' a b := by
   rcases h with ⟨h1, h2⟩ | ⟨h1, t, h2⟩
@@ -269,6 +275,15 @@ theorem inv_flush (c : Cfg) {s s' : State} (h : Inv c s) (t)
           simp only [List.mem_cons, Prod.mk.injEq] at hp
           grind
         · grind
+    have hsub : ∀ x, x ∈ rest → x ∈ s.buf t := by intro x hx; rw [hb]; simp [hx]
+    have hsplit : ∀ x, x ∈ s.buf t → x = (m, v) ∨ x ∈ rest := by intro x hx; rw [hb] at hx; simpa using hx
+    have hm : (m, v) ∈ s.buf t := by rw [hb]; simp
+    have hnd2 := hbN t
+    rw [hb, List.nodup_cons] at hnd2
+    have hmI : v = 0 → s.pc t = .pushX m := by intro e; subst e; exact hbI t m hm
+    have hmC := hbC t m v hm
+    have hmpb : ∀ t1 o, s.pc t1 = .pushSt m o → v = 0 := fun t1 o h => hpb t1 t m o v h hm
+    have hmbb : ∀ u b, (m, b) ∈ s.buf u → b ≠ 0 → v ≠ 0 → u = t ∧ b = v := fun u b h1 h2 h3 => hbb u t m b v h1 hm h2 h3
     constructor
     · refine chain_congr hc ?_
       intro a ha b hl
@@ -277,19 +292,130 @@ theorem inv_flush (c : Cfg) {s s' : State} (h : Inv c s) (t)
       refine chain_congr (hpc u) ?_
       intro a ha b hl
       exact key a (Or.inr ⟨u, (hpriv u a).1 ha⟩) b hl
-    have hsub : ∀ x, x ∈ rest → x ∈ s.buf t := by intro x hx; rw [hb]; simp [hx]
-    have hsplit : ∀ x, x ∈ s.buf t → x = (m, v) ∨ x ∈ rest := by intro x hx; rw [hb] at hx; simpa using hx
-    have hm : (m, v) ∈ s.buf t := by rw [hb]; simp
-    have hnd2 := hbN t
-    rw [hb, List.nodup_cons] at hnd2
-    clear key hc hpc hh
-    have hmI : v = 0 → s.pc t = .pushX m := by intro e; subst e; exact hbI t m hm
-    have hmC := hbC t m v hm
-    have hmpb : ∀ t1 o, s.pc t1 = .pushSt m o → v = 0 := fun t1 o h => hpb t1 t m o v h hm
-    have hmbb : ∀ u b, (m, b) ∈ s.buf u → b ≠ 0 → v ≠ 0 → u = t ∧ b = v := fun u b h1 h2 h3 => hbb u t m b v h1 hm h2 h3
+    all_goals (clear key hc hpc)
     all_goals (simp only [upd, hasRight] at *)
-
     all_goals (first | grind | (trace_state; sorry))
   · simp at st
+
+
+set_option hygiene false in
+/-- steps that change neither memory, buffers nor the push pcs: every chain is kept -/
+macro "simple_frames" : tactic => `(tactic| (
+  first
+  | (refine chain_congr hc ?_
+     intro a ha b hl
+     refine lnext_frame (s := s) rfl ?_ hl
+     frame_tac)
+  | (intro u
+     refine chain_congr (hpc u) ?_
+     intro a ha b hl
+     refine lnext_frame (s := s) rfl ?_ hl
+     frame_tac)))
+
+theorem inv_lock (c : Cfg) {s s' : State} (h : Inv c s) (t)
+    (st : step c s (.lock t) = some s') : Inv c s' := by
+  obtain ⟨hc, hpc, hnd, hpnd, habs, hpriv, hpcX, hown, hpcSt, hbI, hbC, hbN, hpp, hpb, hbb, hr1, hr2, hr3, hh⟩ := h
+  simp only [step] at st
+  split at st
+  · next g =>
+    simp only [Option.some.injEq] at st; subst st
+    constructor
+    · simple_frames
+    · simple_frames
+    rest_tac
+  · simp at st
+
+theorem inv_unlock (c : Cfg) {s s' : State} (h : Inv c s) (t)
+    (st : step c s (.unlock t) = some s') : Inv c s' := by
+  obtain ⟨hc, hpc, hnd, hpnd, habs, hpriv, hpcX, hown, hpcSt, hbI, hbC, hbN, hpp, hpb, hbb, hr1, hr2, hr3, hh⟩ := h
+  simp only [step] at st
+  split at st
+  · next g =>
+    simp only [Option.some.injEq] at st; subst st
+    constructor
+    · simple_frames
+    · simple_frames
+    rest_tac
+  · simp at st
+
+theorem inv_empty (c : Cfg) {s s' : State} (h : Inv c s) (t)
+    (st : step c s (.empty t) = some s') : Inv c s' := by
+  obtain ⟨hc, hpc, hnd, hpnd, habs, hpriv, hpcX, hown, hpcSt, hbI, hbC, hbN, hpp, hpb, hbb, hr1, hr2, hr3, hh⟩ := h
+  simp only [step] at st
+  split at st
+  · next g =>
+    simp only [Option.some.injEq] at st; subst st
+    constructor
+    · simple_frames
+    · simple_frames
+    case hist =>
+      exact hh.step t .empty (by simp [apply, head_end_iff' hc])
+    rest_tac
+  · simp at st
+
+theorem inv_popBegin (c : Cfg) {s s' : State} (h : Inv c s) (t b)
+    (st : step c s (.popBegin t b) = some s') : Inv c s' := by
+  obtain ⟨hc, hpc, hnd, hpnd, habs, hpriv, hpcX, hown, hpcSt, hbI, hbC, hbN, hpp, hpb, hbb, hr1, hr2, hr3, hh⟩ := h
+  simp only [step] at st
+  split at st
+  · next g =>
+    simp only [Option.some.injEq] at st; subst st
+    constructor
+    · simple_frames
+    · simple_frames
+    rest_tac
+  · simp at st
+
+theorem inv_popLd (c : Cfg) {s s' : State} (h : Inv c s) (t)
+    (st : step c s (.popLd t) = some s') : Inv c s' := by
+  obtain ⟨hc, hpc, hnd, hpnd, habs, hpriv, hpcX, hown, hpcSt, hbI, hbC, hbN, hpp, hpb, hbb, hr1, hr2, hr3, hh⟩ := h
+  simp only [step] at st
+  split at st
+  · next b hp =>
+    split at st
+    · next he =>
+      simp only [Option.some.injEq] at st; subst st
+      have hnil : s.abs = [] := (chain_nil_iff hc).1 he
+      constructor
+      · simple_frames
+      · simple_frames
+      case hist =>
+        exact hh.step t .pop (by simp [apply, hnil])
+      rest_tac
+    · next he =>
+      simp only [Option.some.injEq] at st; subst st
+      have hmem : s.head ∈ s.abs := by
+        rcases chain_head hc with ⟨e, _⟩ | ⟨_, r, e⟩
+        · exact absurd e he
+        · rw [e]; simp
+      constructor
+      · simple_frames
+      · simple_frames
+      rest_tac
+  all_goals (first | (simp at st; done) | skip)
+
+theorem inv_popSync (c : Cfg) {s s' : State} (h : Inv c s) (t)
+    (st : step c s (.popSync t) = some s') : Inv c s' := by
+  obtain ⟨hc, hpc, hnd, hpnd, habs, hpriv, hpcX, hown, hpcSt, hbI, hbC, hbN, hpp, hpb, hbb, hr1, hr2, hr3, hh⟩ := h
+  simp only [step] at st
+  split at st
+  · next b h0 hp =>
+    have hrd := rd_cases s t h0
+    split at st
+    · split at st
+      · simp only [Option.some.injEq] at st; subst st
+        exact ⟨hc, hpc, hnd, hpnd, habs, hpriv, hpcX, hown, hpcSt, hbI, hbC, hbN, hpp, hpb, hbb, hr1, hr2, hr3, hh⟩
+      · simp only [Option.some.injEq] at st; subst st
+        constructor
+        · simple_frames
+        · simple_frames
+        rest_tac
+    · next hv =>
+      simp only [Option.some.injEq] at st; subst st
+      constructor
+      · simple_frames
+      · simple_frames
+      rest_tac
+  all_goals (first | (simp at st; done) | skip)
 
 end UrcuVerif.Wfs
